@@ -59,6 +59,12 @@ class Ctx:
         self.written = {}        # path -> bytes written by generated functions (real mode)
         self.bf_seen = set()
         self.hits = 0
+        # fault injection (C14): see run_call
+        self.fault_mode = None        # None | 'catch' | 'nocatch'
+        self.call_stack = []
+        self.fault_call = None        # inv of the innermost generated call during which the fault fired ('<top>' if none)
+        self.fault_handled = False
+        self.uncatchable = None
         self.calls = []          # real mode: (path, status) for every build_file call issued
         self.user_exc_identity = []   # (raised obj id, propagated obj id) mismatches
         self.extra = {}
@@ -245,6 +251,19 @@ def run_call(ctx, b, s, obs):
     if op == 'bf':
         dup = path in ctx.bf_seen
         ctx.bf_seen.add(path)
+        inv = 'F:' + str(path)
+    else:
+        inv = 'S:%s:%s' % (fn, canon_text([json.loads(json.dumps(list(a))), json.loads(json.dumps(kw))]))
+    ctx.call_stack.append(inv)
+    if ctx.extra.get('injector') is not None:
+        ctx.extra.setdefault('call_marks', []).append(ctx.extra['injector'].count)
+    try:
+        _run_call_inner(ctx, b, s, obs, op, path, fn, a, kw, catch, cmp if op == 'bf' else None, n0, dup, inv)
+    finally:
+        ctx.call_stack.pop()
+
+
+def _run_call_inner(ctx, b, s, obs, op, path, fn, a, kw, catch, cmp, n0, dup, inv):
     try:
         if op == 'bf':
             if ctx.mode == 'model':
@@ -260,8 +279,23 @@ def run_call(ctx, b, s, obs):
             r = b.subbuild(fn, make_func(ctx, fn), *a, **kw)
         if not (len(ctx.log) > n0 and ctx.log[n0]['fname'] == fn and ctx.log[n0]['path'] == path):
             ctx.hits += 1        # returned without calling the function: served from the cache
+        if ctx.fault_call == inv and not ctx.fault_handled and ctx.mode == 'real':
+            ctx.fault_handled = True
+            ctx.extra['fault_swallowed'] = inv     # the call during which the fault fired returned normally
         obs.append([op, fn, r])
     except Exception as e:
+        if ctx.fault_call == inv and not ctx.fault_handled:
+            # the exception that results from the injected fault leaves the call in progress
+            ctx.fault_handled = True
+            if op == 'bf' and ctx.mode == 'real':
+                ctx.calls.append((path, 'fault'))
+            if ctx.fault_mode == 'nocatch':
+                ctx.uncatchable = e
+                raise
+            obs.append([op, fn, '!fault'])
+            return
+        if ctx.uncatchable is not None and e is ctx.uncatchable:
+            raise
         if op == 'bf' and ctx.mode == 'real':
             ctx.calls.append((path, exc_class(e)))
             invoked = any(l['path'] == path for l in ctx.log[n0:])
